@@ -17,6 +17,28 @@ def known_match(pid, desc_tags, known):
 
 
 def main(argv):
+    """a check never dies silently: when the machinery itself fails on the tree it is given (an oracle table that can no longer
+    be derived from the regenerated source, a harness that stops answering ...) that is reported as a VIOLATION without failing
+    input, with the traceback in the replay file"""
+    try:
+        return main1(argv)
+    except SystemExit:
+        raise
+    except BaseException as e:
+        import traceback
+        tb = traceback.format_exc()
+        pid = next((x for x in argv if not x.startswith("-")), "C00")
+        try:
+            path = vf.write_replay(pid, {"property": pid, "cases": [], "broken_obligations": ["the check could not be carried out on this tree: %s" % repr(e)[:300]],
+                                         "traceback": tb[-3000:], "note": "no verdict could be formed; the property is not shown to hold on this tree"})
+        except Exception:
+            path = "replays/unwritable"
+        sys.stderr.write(tb)
+        print("VIOLATION property=%s replay=%s no-failing-input-found" % (pid, path))
+        return 1
+
+
+def main1(argv):
     ap = argparse.ArgumentParser()
     ap.add_argument("pid")
     ap.add_argument("--tier", default=os.environ.get("VERIF_TIER", "quick"))
